@@ -442,6 +442,23 @@ where
         n_out += 1;
     }
 
+    // the source handed back by the converter resumes exactly after the last frame it pulled
+    {
+        let pulled = counters.pulls();
+        let resumed: Option<F> = match conv {
+            Conv::FloorC(x) => {
+                let _ = x.source().is_exhausted();
+                Some(x.into_source().next())
+            }
+            Conv::LinearC(mut x) => Some(x.source_mut().next()),
+            _ => None,
+        };
+        if let Some(f) = resumed {
+            let exp = src_frame::<F>(pulled, c.src_len);
+            ensure!(f == exp, "the converter's source resumes with {:?}, expected source frame {} = {:?} (a frame was skipped or re-read)", f, pulled, exp);
+        }
+    }
+
     if c.drain {
         if let Some(l) = c.src_len {
             ensure!(reached_exhaustion, "draining a finite source of {} frames did not end within {} outputs", l, limit);
@@ -551,7 +568,7 @@ pub fn run(ctx: &mut Ctx) {
     for c in ["ratio > 1", "non-dyadic ratio (general regime)", "varying ratio", "exhaustion reached", "overshoot past the end of the source", "ratio exactly 1"] {
         ctx.require_class(c);
     }
-    ctx.prop("random-runs", ctx.pick(30_000, 400_000), case_strategy(300), check);
+    ctx.prop("random-runs", ctx.pick(100_000, 600_000), case_strategy(300), check);
 
     // small exhaustive grid, exact regime: every dyadic ratio k/4 in (0, 4] x source length 1..=8 x both interpolators x drain
     let mut cases = Vec::new();
